@@ -27,6 +27,8 @@ pub mod verif {
     pub use crate::pruner::verif_sim_hooks as pruner_sim;
     pub use crate::p2p::verif_hooks as p2p_mock;
     pub use crate::syncer::verif_sim_hooks as syncer_sim;
+    pub use crate::p2p::shrex_codec_verif_hooks as shrex_codec;
+    pub use crate::p2p::shwap::verif_hooks as shwap;
     pub mod subscriptions { pub use crate::node::subscriptions::verif_hooks::*; }
     pub mod header_session { pub use crate::p2p::header_session::verif_hooks::*; }
     pub mod header_ex_client_sim { pub use crate::p2p::header_ex_client_sim_verif_hooks::*; }
